@@ -82,6 +82,13 @@ def one(t):
             if isolate and partition(o) != part0:
                 res["problems"].append(("partition-differs", "roots=" + " ".join(p) + " --isolate", "", "groups differ"))
         if not isolate:
+            # repeated / nested roots select the same files: same body, whatever the pools
+            overlaps = [gg.ROOTS + gg.ROOTS, ["R1", "R1/s", "R2", "O", "R2/s/t"], ["O", "R2", "R1", "O/s", "R1"]]
+            for ov in (overlaps if thorough else rng.sample(overlaps, 2)):
+                for th in ([["1"], ["16"], ["default:4,4"]] if thorough else [rng.choice([["1"], ["16"], ["default:4,4"]])]):
+                    o = run({"threads": th}, "roots-overlap", roots=ov)
+                    if o is not None and body(o) != body0:
+                        res["problems"].append(("body-differs", "roots=" + " ".join(ov) + " threads=" + ",".join(th), "", diff(body0, body(o))))
             allfiles = sorted(os.path.relpath(tree.path[f["id"]], tree.base) for f in tree.files)
             rng.shuffle(allfiles)
             o = run({}, "stdin", stdin_paths=allfiles)
